@@ -69,6 +69,9 @@ func invoiceMsg(b *lnmodel.Backend, hash string, inv lightning.Invoice) *lnrpc.I
 		out.PaymentRequest = mi.Request
 		out.Value = int64(mi.AmountMsat / 1000)
 		out.ValueMsat = int64(mi.AmountMsat)
+		if mi.Canceled && !inv.Settled {
+			out.State = lnrpc.Invoice_CANCELED // what lnd reports for an invoice that expired unpaid or was canceled
+		}
 	}
 	out.RHash, _ = hex.DecodeString(hash)
 	if inv.Settled {
